@@ -41,7 +41,8 @@ def score_matrix(est, ref, metric):
 
 class Amb:
     def __init__(self):
-        self.ambiguous = False
+        self.ambiguous = False   # a near (inexact) tie was met
+        self.tie = False         # an exact tie was met (resolved by the documented order)
 
 
 def assign_greedy(S, amb=None):
@@ -62,6 +63,8 @@ def assign_greedy(S, amb=None):
             for x in vals:
                 if x != v and abs(x - v) <= NEAR * (1 + abs(v)):
                     amb.ambiguous = True
+            if sum(1 for x in vals if x == v) > 1:
+                amb.tie = True
         i, j = best
         mapping[i] = j
         rows.remove(i)
@@ -85,6 +88,8 @@ def assign_optimal(S, amb=None):
         for t in totals:
             if t != best and abs(t - best) <= NEAR * (1 + abs(best)):
                 amb.ambiguous = True
+        if sum(1 for t in totals if t == best) > 1:
+            amb.tie = True
     return np.array(best_p)
 
 
@@ -150,7 +155,7 @@ def plan(F, start, width, shift, main_it, sub_it):
     return [first] + rest
 
 
-def dhtv(mask, F, start, width, shift, main_it, sub_it, metric, algorithm):
+def dhtv(mask, F, start, width, shift, main_it, sub_it, metric, algorithm, strict=False):
     """Reference DHTV aligner.  Returns (mapping (K,F), converged features, ambiguous)."""
     mask = np.array(mask, dtype=float)
     K = mask.shape[0]
@@ -178,10 +183,10 @@ def dhtv(mask, F, start, width, shift, main_it, sub_it, metric, algorithm):
                     mapping[:, f] = mapping[p, f]
             if not changed:
                 break
-    return mapping, feats, amb.ambiguous
+    return mapping, feats, (amb.ambiguous or (amb.tie and strict))
 
 
-def greedy_chain(mask, metric):
+def greedy_chain(mask, metric, strict=False):
     """Reference adjacent-bin aligner (always the greedy assignment).
     Returns (mapping, ambiguous)."""
     mask = np.array(mask, dtype=float)
@@ -193,10 +198,10 @@ def greedy_chain(mask, metric):
         S = score_matrix(mask[:, f], mask[:, f - 1], metric)
         local = assign_greedy(S, amb)
         mapping[:, f] = local[mapping[:, f - 1]]
-    return mapping, amb.ambiguous
+    return mapping, (amb.ambiguous or (amb.tie and strict))
 
 
-def oracle(mask, reference, metric, algorithm):
+def oracle(mask, reference, metric, algorithm, strict=False):
     mask = np.array(mask, dtype=float)
     reference = np.array(reference, dtype=float)
     K, F = mask.shape[:2]
@@ -205,4 +210,4 @@ def oracle(mask, reference, metric, algorithm):
     for f in range(F):
         S = score_matrix(mask[:, f], reference[:, f], metric)
         mapping[:, f] = assign(S, algorithm, amb)
-    return mapping, amb.ambiguous
+    return mapping, (amb.ambiguous or (amb.tie and strict))
